@@ -229,6 +229,8 @@ def main(rec):
                     route = r.choice([x for x in routes if x != "decl"] or ["file"])
                     body = gen_body(r, lang)
                     body[0] = ("vf_mark_%s = %d" % (re.sub(r"\W", "_", n), r.randint(0, 10 ** 6)))
+                    if route == "file" and r.random() < 0.2:
+                        body = []          # the user emptied the block (a hand edit like any other)
                     per_route[route].setdefault(lang, {})[n] = body
                     supplied[(lang, n)] = (route, body)
             for lang, blocks in per_route["file"].items():
@@ -375,6 +377,8 @@ def judge_supplied(rec, sp, rr):
             continue
         emitted_user += 1
         want = norm(body)
+        if not want:
+            rec.count("emptied_blocks_checked")
         for b in bodies:
             if any(x.strip().startswith("vf_force_") for x in b):
                 rec.count("precedence_decl_over_other_observed")
@@ -382,7 +386,7 @@ def judge_supplied(rec, sp, rr):
             if norm(b) != want:
                 default = sp["defaults"].get(key)
                 kept_default = default is not None and any(norm(b) == norm(x) for x in default)
-                rec.violation(classify(route, want, norm(b), kept_default, sp["routes"]),
+                rec.violation(classify(route, want, norm(b), kept_default, sp["routes"]) + ("" if want else ":emptied-block"),
                               "%s: block %s supplied via %s (routes in this run: %s)\n want %r\n got  %r" % (
                                   sp["name"], key, route, sp["routes"], want, norm(b)), sp)
     # blocks not supplied keep the default
